@@ -307,7 +307,15 @@ def splice_item(item, contracts, unit_name, used, canaries):
             region = text[start:end]
             lines = region.split("\n")
             pat = _nows(ins["pat"])
-            hits = [i for i, l in enumerate(lines) if pat in _nows(l) and "__vx_" not in l]
+            inmark = []
+            open_m = False
+            for l in lines:
+                if "__vx_loop!(" in l or "__vx_body!(" in l:
+                    open_m = True
+                inmark.append(open_m)
+                if open_m and ");" in l:
+                    open_m = False
+            hits = [i for i, l in enumerate(lines) if pat in _nows(l) and not inmark[i]]
             if len(hits) != 1:
                 raise Undecided("lost-anchor", f"{q}: @{ins['where']} \"{ins['pat']}\" matches {len(hits)} lines")
             i = hits[0]
@@ -465,7 +473,12 @@ def assemble(unit, ex, extra_spec=""):
         parts.append(import_contract_stubs(imp))
     for it in ex["items"]:
         parts.append(f"//@@ item {it['file']}:{it['line']} {it['selector']}\n")
-        parts.append(splice_item(it, contracts, unit["name"], used, canaries))
+        txt = splice_item(it, contracts, unit["name"], used, canaries)
+        if it["kind"] == "const" and it["name"] in unit.get("exec_consts", []):
+            # Verus mode annotation (ghost-only): the constant is computed by executable code
+            txt = re.sub(r"\bconst\s+" + re.escape(it["name"]) + r"\b", "exec const " + it["name"], txt, count=1)
+            txt = "#[verifier::external_body]\n" + txt if it["name"] in unit.get("opaque_consts", []) else txt
+        parts.append(txt)
         parts.append("//@@ end\n")
     # global vacuity guard: the trusted prelude and the specification must not prove `false` (this proof fn MUST FAIL)
     parts.append("//@@ " + unit["name"] + "|<prelude>|canary|0\nproof fn __vx_canary_prelude()\n    ensures false\n{}\n//@@ end\n")
